@@ -319,7 +319,7 @@ def _run(ctx, thorough, pool_bin, work, rng, replay):
     # the exhaustive runs go on in the background while the harness phases run (they need little CPU)
     bg = concurrent.futures.ThreadPoolExecutor(max_workers=3)
     mc_futs = {cfg: bg.submit(lambda cfg=cfg, w=w: run_tlc("MC_ThreadPool.tla", cfg, D, workers=w, coverage=True, timeout=5400,
-                                                           heap="8g", work_id="c08-" + cfg[:-4])) for cfg, w in mcs}
+                                                           heap="6g", work_id="c08-" + cfg[:-4])) for cfg, w in mcs}
     jobs = []
     sens = SENSITIVITY + ([("MC_ThreadPool_dev_RestartSharesHandles_isolated.cfg", "RestartSharesHandles", "temporal", "PanicIsolated")]
                           if thorough else [])
@@ -379,7 +379,7 @@ def _run(ctx, thorough, pool_bin, work, rng, replay):
     if thorough:
         edge_cfgs.append(("Gen_ThreadPool_edges_thorough.cfg", 2000))
         edge_cfgs.append(("Gen_ThreadPool_edges_g2.cfg", 1500))     # two starts
-    ejobs = [(cfg, (lambda cfg=cfg: run_tlc("Gen_ThreadPool.tla", cfg, D, workers=1, timeout=1500, heap="8g", work_id="c08-" + cfg[:-4])))
+    ejobs = [(cfg, (lambda cfg=cfg: run_tlc("Gen_ThreadPool.tla", cfg, D, workers=1, timeout=1500, heap="4g", work_id="c08-" + cfg[:-4])))
              for cfg, _ in edge_cfgs]
     sims = [("Gen_ThreadPool_sim.cfg", 2000 if thorough else 250), ("Gen_ThreadPool_sim_g2.cfg", 1500 if thorough else 150)]
     if thorough:
